@@ -458,7 +458,9 @@ def main():
         n_spec = n_model = 0
         for idx in sorted(bad):
             c, r = items[idx]
-            code = bad[idx]
+            code = bad[idx] & ~64        # 64 = non-object reply frame not a decode error: C04's business
+            if not code:
+                continue
             spec = code & (2 | 4)
             if (spec and n_spec >= 5) or (not spec and n_model >= 5):
                 continue
